@@ -311,6 +311,40 @@ func c19Tables(outDir string) {
 		}
 	}
 	b.WriteString("].\n")
+	// the binary position the real parser stores for every prefix operator (Parser.Parse, unaryEntry.opPos; -1 = none):
+	// the two examples and the prefix-operator variants of the float table the run uses
+	b.WriteString("Definition ex_prefix_tables : list (list str * list (str * Z)) := [")
+	row := func(first bool, ops []string, pos map[string]int) {
+		if !first {
+			b.WriteString(";")
+		}
+		var os, us []string
+		for _, o := range ops {
+			os = append(os, CoqStr(o))
+		}
+		for _, u := range sortedKeys(pos) {
+			us = append(us, fmt.Sprintf("(%s, (%d)%%Z)", CoqStr(u), pos[u]))
+		}
+		fmt.Fprintf(&b, "\n  (%s, %s)", CoqList(os), CoqList(us))
+	}
+	opNames := func(ops []funcGen.Operator[float64]) []string {
+		var r []string
+		for _, o := range ops {
+			r = append(r, o.Operator)
+		}
+		return r
+	}
+	var bops []string
+	for _, o := range bg.VerifGenericOperators() {
+		bops = append(bops, o.Operator)
+	}
+	row(true, bops, bg.VerifClone().GetParser().VerifUnaryOpPos())
+	row(false, opNames(fg.VerifGenericOperators()), fg.VerifClone().GetParser().VerifUnaryOpPos())
+	for _, spec := range c19Variants {
+		g := c19VariantGen(spec, false)
+		row(false, opNames(g.VerifGenericOperators()), g.GetParser().VerifUnaryOpPos())
+	}
+	b.WriteString("].\n")
 	writeIfChanged(filepath.Join(outDir, "ExampleCfg.v"), b.String())
 }
 
@@ -492,7 +526,11 @@ func (t *c19Inst) render(e *c19E, full bool) c19R {
 		} else {
 			x = need(x.lvl == n+1, x)
 		}
-		return c19R{text: e.S + x.text, lvl: n, ab: ab}
+		sep := ""
+		if len(x.text) > 0 && !c19Wordy(x.text[:1]) && x.text[0] != '(' {
+			sep = " " // stacked prefix operators are written apart (- -a), so that no longer operator is read
+		}
+		return c19R{text: e.S + sep + x.text, lvl: n, ab: ab}
 	case "call":
 		var as []string
 		for _, a := range e.Kids {
@@ -765,6 +803,79 @@ type c19Float struct {
 	flags  [][]bool
 	alpha  c19Alpha
 	consts map[string]float64
+	// a prefix-operator variant of the table: the example's binary operators with another set of prefix
+	// operators (Var = "" and VarUnary = nil: the table of example/minimal.go itself)
+	Var      string
+	VarUnary []string
+}
+
+func (f *c19Float) instName() string {
+	if f.Var == "" {
+		return "float"
+	}
+	return "float/" + f.Var
+}
+
+func (f *c19Float) coqVar() string {
+	var s []string
+	for _, u := range f.VarUnary {
+		s = append(s, CoqStr(u))
+	}
+	return CoqList(s)
+}
+
+// prefix operators the harness adds to copies of the float example (mirrored in coq/Gen/Instances.v float_unimpl):
+// - negation, + identity, ! and = "is zero" (1/0), ^ square, ~ successor, * double
+var c19PrefixImpl = map[string]func(float64) (float64, error){
+	"-": func(a float64) (float64, error) { return -a, nil },
+	"+": func(a float64) (float64, error) { return a, nil },
+	"!": func(a float64) (float64, error) { if a == 0 { return 1, nil }; return 0, nil },
+	"=": func(a float64) (float64, error) { if a == 0 { return 1, nil }; return 0, nil },
+	"^": func(a float64) (float64, error) { return a * a, nil },
+	"~": func(a float64) (float64, error) { return a + 1, nil },
+	"*": func(a float64) (float64, error) { return a * 2, nil },
+}
+
+type c19VariantSpec struct {
+	Name  string
+	Unary []string // registration order
+}
+
+// 0, 1, 2, 3 prefix operators that are also binary (at the first, a middle and the last priority position),
+// with and without prefix-only operators
+var c19Variants = []c19VariantSpec{
+	{"no-twin", []string{"!"}},
+	{"one-twin", []string{"-", "!"}},
+	{"two-twins", []string{"-", "+"}},
+	{"twins-first-middle-last", []string{"^", "-", "=", "~"}},
+	{"twins-middle-last", []string{"+", "^"}},
+	{"three-twins-middle", []string{"*", "-", "+"}},
+}
+
+func c19VariantGen(spec c19VariantSpec, optimizer bool) *funcGen.FunctionGenerator[float64] {
+	g := example.VerifMinimal().VerifClone().VerifClearUnary().SetKeyWords(c19Keywords...)
+	for _, u := range spec.Unary {
+		g.AddUnaryFunc(u, c19PrefixImpl[u])
+	}
+	if !optimizer {
+		g.SetOptimizer(nil)
+	}
+	return g
+}
+
+func c19NewVariant(base *c19Float, spec c19VariantSpec) *c19Float {
+	f := &c19Float{consts: base.consts, Var: spec.Name, VarUnary: spec.Unary}
+	f.inst = c19Inst{Name: "float/" + spec.Name, Args: base.inst.Args, Ops: base.inst.Ops, Unary: spec.Unary}
+	f.flags = base.flags[:1]
+	f.gens.on = []*funcGen.FunctionGenerator[float64]{c19VariantGen(spec, true)}
+	f.gens.off = c19VariantGen(spec, false)
+	f.alpha = c19Alpha{Bin: []string{"=", "+", "-", "*", "^"}}
+	f.alpha.Leaves = []*c19E{c19Name("a"), c19Name("b"), c19Num("2")}
+	for _, u := range spec.Unary {
+		u := u
+		f.alpha.Unary = append(f.alpha.Unary, func(e *c19E) *c19E { return c19Un(u, e) })
+	}
+	return f
 }
 
 func c19NewFloat() *c19Float {
@@ -889,13 +1000,32 @@ func (f *c19Float) eval(e *c19E, env map[string]c19Q) (c19Q, int) {
 		if st != 0 {
 			return bad, st
 		}
-		if e.S != "-" {
-			return bad, 2
+		switch e.S {
+		case "-":
+			if x.r.Sign() == 0 {
+				return c19Q{r: x.r, nz: !x.nz}, 0
+			}
+			return c19Q{r: new(big.Rat).Neg(x.r)}, 0
+		case "+":
+			return x, 0
+		case "!", "=":
+			return c19QBool(x.r.Sign() == 0), 0
+		case "^", "*", "~":
+			var q c19Q
+			switch e.S {
+			case "^":
+				q = c19QMul(x, x)
+			case "*":
+				q = c19QMul(x, c19Q{r: big.NewRat(2, 1)})
+			default:
+				q = c19Q{r: new(big.Rat).Add(x.r, big.NewRat(1, 1))}
+			}
+			if !c19Exact(q.r) {
+				return bad, 2
+			}
+			return q, 0
 		}
-		if x.r.Sign() == 0 {
-			return c19Q{r: x.r, nz: !x.nz}, 0
-		}
-		return c19Q{r: new(big.Rat).Neg(x.r)}, 0
+		return bad, 2
 	case "bin":
 		x, st := f.eval(e.Kids[0], env)
 		if st != 0 {
@@ -1064,6 +1194,7 @@ func c19Dec(toks *[]string) *c19E {
 
 type c19Repro struct {
 	Inst  string `json:"inst"`
+	Var   string `json:"var,omitempty"` // prefix-operator variant of the float table
 	Flags int    `json:"flags"` // index of the flag setting
 	Text  string `json:"text,omitempty"`
 	Tree  string `json:"tree,omitempty"` // source tree, compact prefix form
@@ -1086,6 +1217,7 @@ type c19Ctx struct {
 	mu     sync.Mutex
 	b      *c19Bool
 	f      *c19Float
+	vars   []*c19Float // prefix-operator variants of the float table
 	viols  []GoViolation
 	nviol  map[string]int
 	coqMax int
@@ -1365,8 +1497,7 @@ func (cx *c19Ctx) boolExplicitT(e *c19E, text string, fi int, kind string, withT
 }
 
 // float: one expression on all assignments; returns observation strings for Coq (nil if outside the exact model)
-func (cx *c19Ctx) floatExpr(e *c19E, text string, fi int, allFlags bool, repro c19Repro) (onS, offS string, exactAll bool) {
-	f := cx.f
+func (cx *c19Ctx) floatExpr(f *c19Float, e *c19E, text string, fi int, allFlags bool, repro c19Repro) (onS, offS string, exactAll bool) {
 	type exp struct {
 		v  float64
 		st int
@@ -1396,13 +1527,13 @@ func (cx *c19Ctx) floatExpr(e *c19E, text string, fi int, allFlags bool, repro c
 			gotErr := o.genErr || o.errs[i]
 			switch {
 			case want[i].st == 1 && !gotErr:
-				cx.violation("float", e, text, kind, what+": a value where the definitions give an error", "error", fmt.Sprintf("%v at a=%v b=%v", o.vals[i], c19FloatAssigns[i][0], c19FloatAssigns[i][1]), r)
+				cx.violation(f.instName(), e, text, kind, what+": a value where the definitions give an error", "error", fmt.Sprintf("%v at a=%v b=%v", o.vals[i], c19FloatAssigns[i][0], c19FloatAssigns[i][1]), r)
 				return
 			case want[i].st == 0 && gotErr:
-				cx.violation("float", e, text, kind, what+": an error where the definitions give a value", fmt.Sprintf("%v at a=%v b=%v", want[i].v, c19FloatAssigns[i][0], c19FloatAssigns[i][1]), "error", r)
+				cx.violation(f.instName(), e, text, kind, what+": an error where the definitions give a value", fmt.Sprintf("%v at a=%v b=%v", want[i].v, c19FloatAssigns[i][0], c19FloatAssigns[i][1]), "error", r)
 				return
 			case want[i].st == 0 && math.Float64bits(o.vals[i]) != math.Float64bits(want[i].v):
-				cx.violation("float", e, text, kind, what+": the generated function differs from the operators' own definitions",
+				cx.violation(f.instName(), e, text, kind, what+": the generated function differs from the operators' own definitions",
 					fmt.Sprintf("%v at a=%v b=%v", want[i].v, c19FloatAssigns[i][0], c19FloatAssigns[i][1]), fmt.Sprintf("%v", o.vals[i]), r)
 				return
 			}
@@ -1452,8 +1583,7 @@ func (cx *c19Ctx) floatExpr(e *c19E, text string, fi int, allFlags bool, repro c
 	return obs(onFi), obs(off), exactAll
 }
 
-func (cx *c19Ctx) floatEnum(n int, coqEvery int, allFlags bool) {
-	f := cx.f
+func (cx *c19Ctx) floatEnum(f *c19Float, n int, coqEvery int, goEvery int, allFlags bool) {
 	total := f.alpha.count(n)
 	type res struct {
 		on, off string
@@ -1470,7 +1600,7 @@ func (cx *c19Ctx) floatEnum(n int, coqEvery int, allFlags bool) {
 				e := f.alpha.unrank(n, idx)
 				text := f.inst.render(e, idx%2 == 1).text
 				fi := int(idx/7) % len(f.flags)
-				on, off, exact := cx.floatExpr(e, text, fi, allFlags, c19Repro{Inst: "float", Flags: fi, Text: text, Expr: e, Tree: e.Enc()})
+				on, off, exact := cx.floatExpr(f, e, text, fi, allFlags, c19Repro{Inst: "float", Var: f.Var, Flags: fi, Text: text, Expr: e, Tree: e.Enc()})
 				if coqEvery > 1 && idx%uint64(coqEvery) != 0 {
 					on, off = "", ""
 				}
@@ -1479,13 +1609,23 @@ func (cx *c19Ctx) floatEnum(n int, coqEvery int, allFlags bool) {
 		}()
 	}
 	for idx := uint64(0); idx < total; idx++ {
+		if goEvery > 1 && idx%uint64(goEvery) != 0 {
+			continue
+		}
 		work <- idx
 	}
 	close(work)
 	wg.Wait()
 	for idx := uint64(0); idx < total; idx++ {
+		if goEvery > 1 && idx%uint64(goEvery) != 0 {
+			continue
+		}
 		cx.sum.Evaluations++
-		cx.sum.Count("float_enumerated_by_operator_nodes", fmt.Sprint(n))
+		if f.Var == "" {
+			cx.sum.Count("float_enumerated_by_operator_nodes", fmt.Sprint(n))
+		} else {
+			cx.sum.Count("float_prefix_variant_enumerated", f.Var+" n="+fmt.Sprint(n))
+		}
 		if !out[idx].exact {
 			cx.sum.Skipped["float: some intermediate result is not exactly representable (or a signed zero / division by zero) on some assignment: those assignments are not compared"]++
 		}
@@ -1496,16 +1636,19 @@ func (cx *c19Ctx) floatEnum(n int, coqEvery int, allFlags bool) {
 		id := cx.nextID()
 		e := f.alpha.unrank(n, idx)
 		text := f.inst.render(e, idx%2 == 1).text
-		cx.sum.Cases[fmt.Sprint(id)] = map[string]any{"instance": "float", "expression": text, "flags": f.flags[fi],
-			"repro": c19Repro{Inst: "float", Flags: fi, Text: text, Expr: e, Tree: e.Enc()}, "signature": c19Sig("float", e, "value")}
-		cx.add(fmt.Sprintf("(%d, CFloatEnum %s %d %d %s %s)", id, c19FlagsCoq(f.flags[fi]), n, idx, out[idx].on, out[idx].off), 5)
+		cx.sum.Cases[fmt.Sprint(id)] = map[string]any{"instance": f.instName(), "expression": text, "flags": f.flags[fi], "prefix_operators": f.inst.Unary,
+			"repro": c19Repro{Inst: "float", Var: f.Var, Flags: fi, Text: text, Expr: e, Tree: e.Enc()}, "signature": c19Sig(f.instName(), e, "value")}
+		if f.Var == "" {
+			cx.add(fmt.Sprintf("(%d, CFloatEnum %s %d %d %s %s)", id, c19FlagsCoq(f.flags[fi]), n, idx, out[idx].on, out[idx].off), 5)
+		} else {
+			cx.add(fmt.Sprintf("(%d, CFloatVarEnum %s %s %d %d %s %s)", id, f.coqVar(), c19FlagsCoq(f.flags[fi]), n, idx, out[idx].on, out[idx].off), 5)
+		}
 	}
 }
 
-func (cx *c19Ctx) floatExplicit(e *c19E, text string, fi int, kind string) {
-	f := cx.f
-	repro := c19Repro{Inst: "float", Flags: fi, Text: text, Expr: e, Tree: e.Enc()}
-	on, off, exact := cx.floatExpr(e, text, fi, false, repro)
+func (cx *c19Ctx) floatExplicit(f *c19Float, e *c19E, text string, fi int, kind string) {
+	repro := c19Repro{Inst: "float", Var: f.Var, Flags: fi, Text: text, Expr: e, Tree: e.Enc()}
+	on, off, exact := cx.floatExpr(f, e, text, fi, false, repro)
 	cx.mu.Lock()
 	defer cx.mu.Unlock()
 	cx.sum.Evaluations++
@@ -1516,10 +1659,14 @@ func (cx *c19Ctx) floatExplicit(e *c19E, text string, fi int, kind string) {
 	}
 	cx.sum.Nontriv("fx:" + text)
 	id := cx.nextID()
-	human := map[string]any{"instance": "float", "expression": text, "flags": f.flags[fi], "repro": repro, "signature": c19Sig("float", e, "value")}
+	human := map[string]any{"instance": f.instName(), "expression": text, "flags": f.flags[fi], "prefix_operators": f.inst.Unary, "repro": repro, "signature": c19Sig(f.instName(), e, "value")}
 	cx.sum.Cases[fmt.Sprint(id)] = human
 	cx.sum.Sample(human)
-	cx.add(fmt.Sprintf("(%d, CFloatExpl %s (Some %s) %s %s %s)", id, c19FlagsCoq(f.flags[fi]), c19CoqToks(f.gens.off, text), e.coq(), on, off), 6+e.nodes()/2)
+	if f.Var == "" {
+		cx.add(fmt.Sprintf("(%d, CFloatExpl %s (Some %s) %s %s %s)", id, c19FlagsCoq(f.flags[fi]), c19CoqToks(f.gens.off, text), e.coq(), on, off), 6+e.nodes()/2)
+	} else {
+		cx.add(fmt.Sprintf("(%d, CFloatVarExpl %s %s (Some %s) %s %s %s)", id, f.coqVar(), c19FlagsCoq(f.flags[fi]), c19CoqToks(f.gens.off, text), e.coq(), on, off), 6+e.nodes()/2)
+	}
 }
 
 // ---------------------------------------------------------------- generators of explicit cases
@@ -1585,6 +1732,9 @@ func cmdC19(seed int64, tier, outDir string) {
 	sum := NewSummary("C19", seed, tier)
 	sum.Rule = "bool: every expression with <= N operator nodes over {a,b,c,true,false} and the table's operators, on all 8 assignments, optimizer on/off, every setting of the commutative flags, minimal and full parentheses; plus let/if forms and sampled larger expressions; float: every expression with <= M operator nodes over {a,b,2,0.5}, {= < + - *}, unary minus and division by 2 on a 3x3 grid of assignments, plus extras (functions, ^, >, pi, implicit multiplication, let/if). Non-trivial = the expression has at least one operator node; distinct by (instance, expression text); enumerated tiers count every enumerated expression once"
 	cx := &c19Ctx{sum: sum, outDir: outDir, b: c19NewBool(), f: c19NewFloat(), nviol: map[string]int{}}
+	for _, spec := range c19Variants {
+		cx.vars = append(cx.vars, c19NewVariant(cx.f, spec))
+	}
 	r := NewRng(seed)
 	debug.SetGCPercent(400)
 	t0 := time.Now()
@@ -1612,7 +1762,7 @@ func cmdC19(seed int64, tier, outDir string) {
 	// ---- corpus: known-bad inputs first
 	bt, ft := &cx.b.inst, &cx.f.inst
 	for _, e := range c19FloatCorpus() {
-		cx.floatExplicit(e.e, e.text(ft), 0, "corpus")
+		cx.floatExplicit(cx.f, e.e, e.text(ft), 0, "corpus")
 	}
 	for _, e := range c19BoolCorpus() {
 		cx.boolExplicit(e.e, e.text(bt), 0, "corpus")
@@ -1636,13 +1786,50 @@ func cmdC19(seed int64, tier, outDir string) {
 	for n := 0; n <= floatGoN; n++ {
 		every := 1
 		if n > floatN {
-			every = 97
+			every = 197
 			if n >= 4 {
 				every = 2003
 			}
 		}
-		cx.floatEnum(n, every, n <= 2 || (tier == "thorough" && n <= 3))
+		cx.floatEnum(cx.f, n, every, 1, n <= 2 || (tier == "thorough" && n <= 3))
 		enumTotal += int(cx.f.alpha.count(n))
+	}
+	// ---- prefix-operator variants of the float table: 0..3 prefix operators that are also binary (first, middle,
+	// last priority position) and prefix-only operators; prefix operators at every operand position
+	for _, v := range cx.vars {
+		// the parser's own table first: the binary position stored for every prefix operator
+		pos := v.gens.off.GetParser().VerifUnaryOpPos()
+		for _, u := range v.inst.Unary {
+			want := v.inst.level(u)
+			if pos[u] != want {
+				e := c19Un(u, c19Bin("^", c19Name("a"), c19Num("2")))
+				cx.violation(v.instName(), e, v.inst.render(e, false).text, "prefix-priority",
+					fmt.Sprintf("the parser does not give the prefix operator %q the priority of its binary twin", u),
+					fmt.Sprintf("binary position %d", want), fmt.Sprintf("binary position %d", pos[u]),
+					c19Repro{Inst: "float", Var: v.Var, Text: v.inst.render(e, false).text, Expr: e, Tree: e.Enc()})
+			}
+		}
+		for _, c := range c19VariantCorpus(v) {
+			cx.floatExplicit(v, c.e, c.text(&v.inst), 0, "prefix corpus "+v.Var)
+		}
+		varN, varGoN := 1, 3
+		if tier == "thorough" {
+			varN = 2
+		}
+		for n := 0; n <= varGoN; n++ {
+			every, goEvery := 1, 1
+			if n > varN {
+				every = 11
+			}
+			if n >= 3 {
+				every, goEvery = 350, 5
+				if tier == "thorough" {
+					every, goEvery = 11, 1
+				}
+			}
+			cx.floatEnum(v, n, every, goEvery, false)
+			enumTotal += int(v.alpha.count(n)) / goEvery
+		}
 	}
 	phase("after_enumeration")
 	// the enumerated expressions are pairwise different by construction
@@ -1674,7 +1861,7 @@ func cmdC19(seed int64, tier, outDir string) {
 		}
 	}
 	// ---- sampled: nested let/if programs and larger expressions
-	nRand := 1500 * optBoost
+	nRand := 1200 * optBoost
 	if tier == "thorough" {
 		nRand = 30000
 	}
@@ -1711,7 +1898,7 @@ func cmdC19(seed int64, tier, outDir string) {
 		}
 		fi := r.Pick(len(cx.f.flags))
 		full := r.Chance(0.3)
-		jobs = append(jobs, func() { cx.floatExplicit(e, ft.render(e, full).text, fi, kind) })
+		jobs = append(jobs, func() { cx.floatExplicit(cx.f, e, ft.render(e, full).text, fi, kind) })
 	}
 	// explicit cases keep their order (ids are assigned under the lock, in job order)
 	for _, j := range jobs {
@@ -1811,6 +1998,49 @@ func c19FloatCorpus() []c19CorpusEntry {
 	}
 }
 
+// pinned source texts for a prefix-operator variant: every prefix operator in front of a higher-priority
+// operator, stacked prefix operators, a prefix operator behind a binary one
+func c19VariantCorpus(v *c19Float) []c19CorpusEntry {
+	a, b := c19Name("a"), c19Name("b")
+	two := c19Num("2")
+	has := map[string]bool{}
+	for _, u := range v.inst.Unary {
+		has[u] = true
+	}
+	var cs []c19CorpusEntry
+	// reading of "u a OP 2" under the declared priorities: u takes everything of higher priority than its twin
+	read := func(u string, op string) *c19E {
+		p := v.inst.level(u)
+		if p >= 0 && v.inst.level(op) > p {
+			return c19Un(u, c19Bin(op, a, two))
+		}
+		return c19Bin(op, c19Un(u, a), two)
+	}
+	for _, u := range v.inst.Unary {
+		for _, op := range []string{"^", "*", "+", "="} {
+			cs = append(cs, c19CorpusEntry{e: read(u, op), src: u + "a " + op + " 2"})
+		}
+		cs = append(cs, c19CorpusEntry{e: c19Un(u, c19Un(u, a))}) // u u a
+		cs = append(cs, c19CorpusEntry{e: c19Bin("-", b, read(u, "^")), src: "b - " + u + "a ^ 2"})
+	}
+	if has["-"] {
+		cs = append(cs,
+			c19CorpusEntry{e: c19Un("-", c19Bin("^", a, two)), src: "-a^2"},
+			c19CorpusEntry{e: c19Un("-", c19Bin("^", a, two)), src: "-a²"},
+			c19CorpusEntry{e: c19Un("-", c19Bin("^", two, two)), src: "-2^2"},
+			c19CorpusEntry{e: c19Un("-", c19Un("-", a)), src: "- -a"},
+			c19CorpusEntry{e: c19Bin("-", b, c19Un("-", c19Bin("^", a, two))), src: "b - -a^2"},
+			c19CorpusEntry{e: c19Let("s", c19Un("-", c19Bin("^", a, two)), c19Bin("-", c19Name("s"), c19Un("-", c19Bin("^", c19Name("s"), two)))), src: "let s = -a^2; s - -s^2"})
+	}
+	if has["-"] && has["+"] {
+		cs = append(cs,
+			c19CorpusEntry{e: c19Un("+", c19Bin("*", a, b)), src: "+a*b"},
+			c19CorpusEntry{e: c19Un("-", c19Un("+", c19Bin("^", a, two))), src: "- +a^2"},
+			c19CorpusEntry{e: c19Un("+", c19Un("-", c19Bin("^", a, two))), src: "+ -a^2"})
+	}
+	return cs
+}
+
 func c19BoolCorpus() []c19CorpusEntry {
 	a, b, c := c19Name("a"), c19Name("b"), c19Name("c")
 	t, f := c19Name("true"), c19Name("false")
@@ -1867,6 +2097,15 @@ func (cx *c19Ctx) replay(rp c19Repro) {
 	case rp.Inst == "bool":
 		cx.boolExplicit(rp.Expr, rp.Text, rp.Flags, "replay")
 	default:
-		cx.floatExplicit(rp.Expr, rp.Text, rp.Flags, "replay")
+		f := cx.f
+		for _, v := range cx.vars {
+			if v.Var == rp.Var {
+				f = v
+			}
+		}
+		if rp.Flags >= len(f.flags) {
+			rp.Flags = 0
+		}
+		cx.floatExplicit(f, rp.Expr, rp.Text, rp.Flags, "replay")
 	}
 }
